@@ -419,14 +419,16 @@ static Reg r_stats("nn_stats", [](const Args& a) {
 
 inline std::string S(long long v) { return std::to_string(v); }
 
-inline void generate(Rng& r, bool thorough) {
+inline void generate(Rng& r, bool thorough, int K = 1) {
+  auto Q = [&](long v) { return std::max<long>(1, v / K); };   // K slices: the orchestrating generate() runs the parts round-robin
+
   auto win = [&](int kind, D& maxdist, D& mindist) {
     D scale = kind == 0 ? 16 : kind == 1 ? 2000 : kind == 2 ? 60 : kind == 3 ? 40 : 20000000000LL;
     maxdist = r.irange(0, 2) == 0 ? DMAX : D(scale * r.pick(std::vector<double>{0.05, 0.1, 0.3, 0.6, 1.0, 0.0}));
     mindist = r.irange(0, 3) == 0 ? -1 : r.irange(0, 3) == 0 ? 0 : D(scale * r.pick(std::vector<double>{0.02, 0.05, 0.1, 0.3, 0.6, 0.9}));
   };
   auto size = [&]() { int c = r.irange(0, 9); return c == 0 ? r.irange(0, 3) : c < 6 ? r.irange(4, 60) : c < 9 ? r.irange(61, 300) : r.irange(301, 700); };
-  int N = thorough ? 6000 : 3000;
+  int N = int(Q(thorough ? 6000 : 3000));
   for (int i = 0; i < N; ++i) {
     int kind = r.irange(0, 9) < 8 ? r.irange(0, 3) : 4; int n = size(); if (kind == 4) n = std::min(n, 120);
     int bucket = r.irange(0, 10), via = r.irange(0, 2) ? 0 : r.irange(1, 3);
@@ -437,24 +439,24 @@ inline void generate(Rng& r, bool thorough) {
             (mindist > 0 ? ":mindist>0" : "") + (maxdist != DMAX ? ":maxdist" : "") + (via ? ":via-save-load" : "") + (!exh ? ":non-exhaustive" : "") + (tol ? ":tol" : "") + (bucket == 0 ? ":bucket0" : ""));
     run("nn_search", {S(kind), S(r.next() % 1000000), S(n), S(bucket), S(via), S(k), S(maxdist), S(mindist), S(exh), S(tol), S(r.next() % 1000000)});
   }
-  for (int i = 0; i < (thorough ? 6000 : 1200); ++i) {
+  for (int i = 0; i < Q(thorough ? 6000 : 1200); ++i) {
     int kind = r.irange(0, 9) < 8 ? r.irange(0, 3) : 4; int n = i < 8 ? i : size(); if (kind == 4) n = std::min(n, 40); else n = std::min(n, 400);
     stratum(std::string("nn:init-vs-model:") + (kind == 0 ? "L1-tie-rich" : kind == 1 ? "L1" : kind == 2 ? "collinear" : kind == 3 ? "chebyshev" : "geodesic-mm"));
     run("nn_init", {S(kind), S(r.next() % 1000000), S(n), S(i < 24 ? i % 3 : r.irange(0, 10))});
   }
-  int NB = thorough ? 600 : 60;
+  int NB = int(Q(thorough ? 600 : 60));
   for (int i = 0; i < NB; ++i) {
     int kind = r.irange(0, 3); int n = i == 0 ? 0 : i == 1 ? 1 : i % 4 == 2 ? r.irange(1200, 2000) : r.irange(2, 900);
     stratum(std::string("nn:bulk:") + (n > 1000 ? "large" : "medium")); run("nn_bulk", {S(kind), S(r.next() % 1000000), S(n), S(r.irange(0, 10)), S(thorough ? 40 : 16)});
   }
-  for (int i = 0; i < (thorough ? 400 : 40); ++i) { stratum("nn:statistics-swap"); run("nn_stats", {S(r.irange(0, 3)), S(r.next() % 1000000), S(i < 3 ? i + 1 : r.irange(2, 300)), S(r.irange(0, 10)), S(i % 7 == 0 ? 1 : r.irange(1, 12))}); }
-  for (int i = 0; i < (thorough ? 100 : 12); ++i) { stratum("nn:geodesic-double"); run("nn_geo", {S(r.next() % 1000000), S(i == 0 ? 400 : r.irange(1, 250)), S(r.irange(0, 10)), S(thorough ? 12 : 6)}); }
-  int NL = thorough ? 24000 : 6000;
+  for (int i = 0; i < Q(thorough ? 400 : 40); ++i) { stratum("nn:statistics-swap"); run("nn_stats", {S(r.irange(0, 3)), S(r.next() % 1000000), S(i < 3 ? i + 1 : r.irange(2, 300)), S(r.irange(0, 10)), S(i % 7 == 0 ? 1 : r.irange(1, 12))}); }
+  for (int i = 0; i < Q(thorough ? 100 : 12); ++i) { stratum("nn:geodesic-double"); run("nn_geo", {S(r.next() % 1000000), S(i == 0 ? 400 : r.irange(1, 250)), S(r.irange(0, 10)), S(thorough ? 12 : 6)}); }
+  int NL = int(Q(thorough ? 24000 : 6000));
   for (int i = 0; i < NL; ++i) {
     int kind = r.irange(0, 3), n = r.irange(1, 40);
     stratum("nn:load-mutated-tokens"); run("nn_load", {S(kind), S(r.next() % 1000000), S(n), S(r.irange(0, 10)), S(r.next() % 1000000000), S(r.irange(0, 9) == 0 ? 0 : r.irange(1, 3)), S(r.next() % 1000000), S(r.irange(1, 4))});
   }
-  for (int i = 0; i < (thorough ? 2000 : 200); ++i) { stratum("nn:binary-layout"); run("nn_bin", {S(r.irange(0, 4)), S(r.next() % 1000000), S(i < 3 ? i : r.irange(0, 120)), S(r.irange(0, 10))}); }
+  for (int i = 0; i < Q(thorough ? 2000 : 200); ++i) { stratum("nn:binary-layout"); run("nn_bin", {S(r.irange(0, 4)), S(r.next() % 1000000), S(i < 3 ? i : r.irange(0, 120)), S(r.irange(0, 10))}); }
   for (int i = 0; i < 4; ++i) { stratum("nn:load-truncated-binary-header"); run("nn_loadtrunc", {S(24 + 4 * (i % 2)), S(i < 2 ? 7 : 5)}); }
   for (int i = 0; i < 3; ++i) { stratum("nn:load-shared-children"); run("nn_loaddag", {S(r.irange(30, 60)), S(i)}); }
   for (int i = 0; i < NL; ++i) {
